@@ -1,4 +1,5 @@
 import GnarkVerif.Proofs.FieldLoopsGen
+import GnarkVerif.Gen.Imp.InverseTail
 import GnarkVerif.Props.C01
 import GnarkVerif.Props.C01_chains
 import Mathlib.Algebra.Field.Basic
@@ -21,6 +22,9 @@ PARAMETERS of the generated defs (not translated), with their ASSUMED behaviour 
 `Legendre` (same file, same 23 packages): PARAMETERS `isOne` (`Element.IsOne`), `legendreExp` = the exponentiation to (q-1)/2 that the packages
 write `l.expByLegendreExp(*z)` (addition chain, exponent pinned per package by Props/C01_chains `legendre_expo`; `C01gen_legendre_chain`) or
 `l.Exp(*z, _bLegendreExponentElement)` (stark-curve/fr; the value of that package variable is ASSUMED to be (q-1)/2).
+Post-check of `Inverse` (Gen/Imp/InverseTail.lean, the 18 packages with Pornin's inversion = those declaring `inverseExp`; secp256k1 fp/fr,
+goldilocks, koalabear, babybear have another Inverse and are NOT covered): only the statements after the last loop are translated (each pinned
+literally by the translator); the loops are an uninterpreted input `v`; `inverseExp` is a PARAMETER read as `x^(q-2)`.
 Not modelled: integer overflow of `int`, `uint(i)` is the identity for the checked non-negative arguments, out-of-range panics.
 
 Abstraction function and invariants: Proofs/FieldLoopsGen.lean (`res` = finished prefix ++ untouched tail; `ZInv`).
@@ -128,6 +132,35 @@ theorem C01gen_legendre [Fact p.q.Prime] (h : p.OK) (x : Nat) (hx : x < p.q) :
   rw [e]; exact C01_legendre p h x hx
 example : Legendre 0 (fun y => decide (y = 0)) (fun y => decide (y = one p13)) (fun y => expNat p13 y ((p13.q - 1) / 2)) 0 = 0 :=
   ((C01gen_legendre p13 ok13 0 (by decide)).1).2 rfl
+
+/-! ### the post-check of Inverse -/
+
+open GV.Gen.Imp.InverseTail in
+/-- CERTIFIED RESULT: whatever canonical value `v` the (untranslated) Pornin loops left and whatever the correction factor is, the statements
+after the last loop of `Inverse` return the model's inverse of every canonical NONZERO `x`: either the product test `x·z = 1` passes, and
+then `z` is the inverse, or the code falls back to `inverseExp` (PARAMETER, read as the model's `x^(q-2)`). For `x = 0` the tail returns
+`v·corr` (the test `!u.IsZero()` disables the fallback): `Inverse(0) = 0` relies on the loops leaving `v = 0`, which is NOT covered here. -/
+theorem C01gen_inverse_tail [Fact p.q.Prime] (h : p.OK) (x v corr : Nat) (hx : x < p.q) (hx0 : x ≠ 0) (hv : v < p.q) (hc : corr < p.R) :
+    Inverse.tail (mul p) (fun y => decide (y = 0)) (fun y => decide (y = one p)) corr (fun u => expNat p u (p.q - 2)) x v = inv p x := by
+  have hz : mul p v corr < p.q := mul_lt p h v corr hv hc
+  have hinv : inv p x = expNat p x (p.q - 2) := by simp [inv, hx0]
+  unfold Inverse.tail
+  by_cases e : mul p x (mul p v corr) = one p
+  · simp only [e, decide_true, Bool.not_true, Bool.false_and, Bool.false_eq_true, if_false]
+    apply C01_abs_injective p h _ _ hz (C01_inv p h x hx).1
+    have h1 : abs p x * abs p (mul p v corr) = 1 := by
+      rw [← abs_mul p h x _ hx (q_lt_R' p h hz), e, abs_one p h]
+    rw [(C01_inv p h x hx).2]
+    exact eq_inv_of_mul_eq_one_right h1
+  · simp [e, hx0, hinv]
+example : GV.Gen.Imp.InverseTail.Inverse.tail (mul p13) (fun y => decide (y = 0)) (fun y => decide (y = one p13)) 5
+    (fun u => expNat p13 u (p13.q - 2)) 7 11 = inv p13 7 :=
+  C01gen_inverse_tail p13 ok13 7 11 5 (by decide) (by decide) (by decide) (by decide)
+
+/-- the tail on `x = 0` returns `v·corr`, whatever it is (so the zero case of `Inverse` is the loops' business) -/
+theorem C01gen_inverse_tail_zero (v corr : Nat) (ih : Nat → Nat) :
+    GV.Gen.Imp.InverseTail.Inverse.tail (mul p) (fun y => decide (y = 0)) (fun y => decide (y = one p)) corr ih 0 v = mul p v corr := by
+  simp [GV.Gen.Imp.InverseTail.Inverse.tail]
 
 end model
 
